@@ -275,6 +275,26 @@ func checkDst(c dstCase) *mc.Viol {
 	}); p != "" {
 		return &mc.Viol{Sig: "Append (" + c.Fn + ") panics", What: fmt.Sprintf("%+v: %s", c, p)}
 	}
+	if c.Fn == "varint" && c.Alias < 0 {
+		// the result belongs to the caller: overwriting it must not change what a later call returns
+		// (into a destination without room the encoder must hand out fresh memory)
+		saved := append([]byte{}, out...)
+		var again []byte
+		if c.Spare == 0 {
+			for i := c.Prefix; i < len(out); i++ {
+				out[i] ^= 0xff
+			}
+			again = append([]byte{}, quicwire.AppendVarint(buf[guard:guard+c.Prefix:guard+c.Prefix], c.Value)...)
+			for i := c.Prefix; i < len(out); i++ {
+				out[i] ^= 0xff
+			}
+		} else {
+			again = saved
+		}
+		if !bytes.Equal(again, saved) {
+			return &mc.Viol{Sig: "AppendVarint: a later call returns what the caller wrote into an earlier result", What: fmt.Sprintf("%+v: first %x, after the caller flipped it: %x", c, saved, again)}
+		}
+	}
 	var want []byte
 	want = append(want, before[guard:guard+c.Prefix]...)
 	switch c.Fn {
@@ -689,6 +709,11 @@ func main() {
 			for _, sp := range spares {
 				for _, val := range []uint64{0, 1, 63, 64, 16383, 16384, 1<<30 - 1, 1 << 30, 1<<62 - 1} {
 					ds = append(ds, dstCase{Fn: "varint", Value: val, Prefix: pl, Spare: sp, Alias: -1})
+				}
+				if sp == 0 {
+					for val := uint64(2); val < 300; val++ {
+						ds = append(ds, dstCase{Fn: "varint", Value: val, Prefix: pl, Spare: 0, Alias: -1})
+					}
 				}
 				for _, l := range []int{0, 1, 2, 7, 8, 63, 64, 255, 256, 280} {
 					for _, fn := range []string{"varintbytes", "uint8bytes"} {
